@@ -612,7 +612,16 @@ func (env *Env) call(n *ast.CallExpr) (Val, error) {
 			out.L = append(out.L, sIte(c.one(), a.L[i], b.L[i]))
 		}
 		return out, nil
-	case "forall", "exists", "forallStr", "existsStr", "forallB", "existsB":
+	case "arr":
+		a, err := arg(0)
+		if err != nil {
+			return Val{}, err
+		}
+		if a.T == nil || !isSlice(a.T) || len(a.L) != 3 {
+			return Val{}, fmt.Errorf("arr(slice of a single-leaf element type)")
+		}
+		return specVal(a.L[2]), nil
+	case "forall", "exists", "forallStr", "existsStr", "forallB", "existsB", "forallStrArr":
 		id, ok := n.Args[0].(*ast.Ident)
 		if !ok || len(n.Args) != 2 {
 			return Val{}, fmt.Errorf("%s(var, body)", fname)
@@ -622,6 +631,10 @@ func (env *Env) call(n *ast.CallExpr) (Val, error) {
 		if strings.HasSuffix(fname, "Str") {
 			srt = "Str"
 			vt = types.Typ[types.String]
+		}
+		if strings.HasSuffix(fname, "StrArr") {
+			srt = "(Array Int Str)"
+			vt = nil
 		}
 		fx.c.nfresh++
 		qv := fmt.Sprintf("q!%s!%d", id.Name, fx.c.nfresh)
@@ -784,6 +797,12 @@ func (env *Env) call(n *ast.CallExpr) (Val, error) {
 		id, ok := n.Args[0].(*ast.Ident)
 		if !ok {
 			return Val{}, fmt.Errorf("%s(name)", fname)
+		}
+		if fname == "local" && env.local != nil {
+			// the current value of a local variable (a reassigned parameter's name alone denotes its entry value)
+			if v, ok := env.local(id.Name); ok {
+				return v, nil
+			}
 		}
 		if v, ok := env.lookupName(id.Name); ok {
 			return v, nil
